@@ -11,7 +11,7 @@ import sys
 import tempfile
 from concurrent.futures import ThreadPoolExecutor
 
-VERIF = "/verif"
+VERIF = os.path.dirname(os.path.abspath(__file__))
 
 
 def claimed():
